@@ -304,8 +304,14 @@ class MultiVector:
 
         values = self.values()
         if isinstance(values, (tuple, list)):
-            # Coefficients that are plain numbers are the same for every element.
-            return_values = values.__class__(value[item] if hasattr(value, '__getitem__') else value for value in values)
+            shape = self.shape[1:]
+            if shape:
+                # Coefficients of lower rank (down to plain numbers) are shared between the elements: index
+                # them as they are broadcast in `shape`.
+                import numpy as np
+                return_values = values.__class__(np.broadcast_to(value, shape)[item] for value in values)
+            else:
+                return_values = values.__class__(value[item] if hasattr(value, '__getitem__') else value for value in values)
         elif any(isinstance(i, (list, tuple)) or hasattr(i, 'shape') for i in item) and \
                 sum(isinstance(i, (int, list, tuple)) or hasattr(i, 'shape') for i in item) > 1:
             # With several advanced indices numpy can move the indexed axes in front of the axis of the
